@@ -714,6 +714,19 @@ def _check_from_dict_values_untouched(prog: Program, L: Ledger) -> None:
                                 or isinstance(v, ast.Name) or (isinstance(v, ast.BinOp) and isinstance(v.op, ast.BitOr))
                             if is_dictish:
                                 derived.add(t.id)
+        def _rebuilds(v) -> bool:
+            """does the expression contain a call that rebuilds a component: `X.from_dict(…)`, or a package helper whose body does"""
+            from ..normalize import resolve_callee
+
+            for c in ast.walk(v):
+                if isinstance(c, ast.Call):
+                    if isinstance(c.func, ast.Attribute) and c.func.attr == "from_dict":
+                        return True
+                    r_ = resolve_callee(prog, fd, c, ci)
+                    if r_ is not None and any(isinstance(c2, ast.Call) and isinstance(c2.func, ast.Attribute) and c2.func.attr == "from_dict" for c2 in ast.walk(r_[0].node)):
+                        return True
+            return False
+
         rebuilt_locals = {t.id for st in walk_no_nested(f.node) if isinstance(st, (ast.Assign, ast.AnnAssign)) and st.value is not None
                           for t in (st.targets if isinstance(st, ast.Assign) else [st.target]) if isinstance(t, ast.Name)
                           and any(isinstance(c, ast.Call) and isinstance(c.func, ast.Attribute) and c.func.attr == "from_dict" for c in ast.walk(st.value))}
@@ -730,8 +743,7 @@ def _check_from_dict_values_untouched(prog: Program, L: Ledger) -> None:
                 if isinstance(t, ast.Subscript) and isinstance(t.value, ast.Name) and t.value.id in derived and isinstance(t.slice, ast.Constant):
                     n += 1
                     v = st.value
-                    ok = isinstance(st, ast.Assign) and (any(isinstance(c, ast.Call) and isinstance(c.func, ast.Attribute) and c.func.attr == "from_dict" for c in ast.walk(v))
-                                                        or (isinstance(v, ast.Name) and v.id in rebuilt_locals))
+                    ok = isinstance(st, ast.Assign) and (_rebuilds(v) or (isinstance(v, ast.Name) and v.id in rebuilt_locals))
                     L.check(ok, "S8", f"{fd.qualname}:kwargs[{t.slice.value!r}]", f"{fd.module.relpath}:{st.lineno}",
                             f"`{norm(st)[:90]}` recomputes the stored entry {t.slice.value!r} before it reaches the constructor: the rebuilt object does not have the serialised value whenever the recomputation changes it",
                             f"serialise an object whose `{t.slice.value}` is changed by `{norm(v)[:50]}` (a boundary value: 0, a negative number, an empty container …), rebuild it: different value; serialising again gives a different dictionary", norm(st)[:100])
